@@ -354,7 +354,8 @@ def reader_layout(ctx, cfg, fn, agg_suffix, param='bytes'):
                                 rng = (tfmt(o[1]), tfmt(o[2]) if o[2] is not None else None)
                     break
                 if d[0] == 'assign' and d[2]['rv']['k'] == 'use' and d[2]['rv']['op']['k'] in ('copy', 'move'):
-                    pl = d[2]['rv']['op']['pl']
+                    from flow import _tuple_member
+                    pl = _tuple_member(zf.fd, d[2]['rv']['op']['pl'])
                     if pl.get('p') and any(p['k'] == 'downcast' for p in pl['p']):
                         oc = zf._origin_call(pl['l'])
                         if oc:
@@ -1374,6 +1375,10 @@ def rule_serde_checked_decoders(ctx, cfg='prod-all'):
                 if g.kind == 'call' and (w.endswith('::is_identity') or w.endswith('::is_zero')):
                     hit = True
                 if g.kind == 'call' and 'PartialEq' in w and any(str(a[1]).split('::')[-1] in ('IDENTITY', 'ZERO') for a in g.all_atoms() if a[0] in ('a', 'c')):
+                    hit = True
+                # `list.contains(&ZERO)` came out false: no element is the refused value
+                if g.kind == 'call' and w.endswith('<impl [T]>::contains') and g.truth is False \
+                        and any(str(a[1]).split('::')[-1] in ('IDENTITY', 'ZERO') for a in g.all_atoms() if a[0] in ('a', 'c')):
                     hit = True
             ok = ok and hit
         checked[path] = kind if ok else None
